@@ -20,7 +20,12 @@ def run_pipeline(ctx, cases, chunk=60):
                 "ViaPre": bool(c.get("ViaPre")), "Restage": int(c.get("Restage") or 0), "Reassemble": bool(c.get("Reassemble")), "WriteBack": bool(c.get("WriteBack")), "ParseOnly": bool(c.get("ParseOnly")),
                 "Repo": C.REPO, "Templates": bool(c.get("Templates"))}
     outs = [None] * len(cases)
-    shared = [k for k, c in enumerate(cases) if not c.get("Isolate")]
+    conc = [k for k, c in enumerate(cases) if c.get("Concurrent") and not c.get("Isolate")]
+    if conc:
+        # all of them at the same time, each in a goroutine of its own, in one process
+        for k, o in zip(conc, C.dump("concurrent", [payload(cases[k]) for k in conc], timeout=1800)):
+            outs[k] = o
+    shared = [k for k, c in enumerate(cases) if not c.get("Isolate") and not c.get("Concurrent")]
     alone = [k for k, c in enumerate(cases) if c.get("Isolate")]
     for i in range(0, len(shared), chunk):
         idx = shared[i:i + chunk]
